@@ -163,6 +163,35 @@ func VerifH_C14_L2_names() {
 	}
 }
 
+// VerifH_C14_L2_longNames: the same injectivity for Job names of every length a
+// Job may have (scheduled Jobs are named <jobconfig>-<unix time>, which easily
+// reaches the limit): whatever is done to keep a task name short must not merge
+// two indexes or two attempts. Lengths and retry numbers are case-split (the name
+// is built with fmt, the lengths decide the shape), the indexes are the first
+// three of a withCount Job.
+func VerifH_C14_L2_longNames() {
+	parallel.VerifInstallHashStub()
+	lens := []int{1, 20, 45, 50, 52, 53, 54, 55, 56, 57, 58, 59, 60, 61, 62, 63}
+	l := lens[vz.Choice("jobNameLength", len(lens))]
+	name := ""
+	for k := 0; k < l; k++ {
+		name += "j"
+	}
+	retries := []int64{0, 1, 10}
+	i1 := execution.ParallelIndex{IndexNumber: pointer.Int64(int64(vz.Choice("i1", 3)))}
+	i2 := execution.ParallelIndex{IndexNumber: pointer.Int64(int64(vz.Choice("i2", 3)))}
+	r1 := retries[vz.Choice("r1", 3)]
+	r2 := retries[vz.Choice("r2", 3)]
+	n1, e1 := jobutil.GenerateTaskName(name, tasks.TaskIndex{Retry: r1, Parallel: i1})
+	n2, e2 := jobutil.GenerateTaskName(name, tasks.TaskIndex{Retry: r2, Parallel: i2})
+	vz.Assert(e1 == nil && e2 == nil, "C14/L2/names-computable")
+	same := *i1.IndexNumber == *i2.IndexNumber && r1 == r2
+	vz.Assert((n1 == n2) == same, "C14/L2/task-name-injective")
+	if l >= 55 && !same {
+		vz.Cover("long-name-distinct-indexes")
+	}
+}
+
 // the collision pairs below 160 listed under known finding F14-1
 var verifKnownCollisions = [][2]int64{}
 
